@@ -50,7 +50,11 @@ class C15(Prop):
                   "shorter than 2^29 - 2 bytes and a decoding error (BufSize) beyond (the bound prefix_string::decode puts on a "
                   "Huffman literal since the repair of D-06u; which body the tree has is read from the source on every run), "
                   "the Huffman decoder with every u32 / shift / index operation checked never overflows under that bound and "
-                  "never on any input behind the refusal (positions_fit), answers independent of how a non-contiguous Buf is cut")
+                  "never on any input behind the refusal (positions_fit), the Huffman ENCODER with every u32 operation checked never "
+                  "overflows for codings of L bytes with 7L < 2^32 (both shapes of put, every growth policy of Vec) and the "
+                  "unrepaired one overflows beyond 2^32 bytes and at every reservation with 7*byte >= 2^32 "
+                  "(encoder_positions_fit, D-15e; the round trip / string literal encoder theorems carry that bound as a "
+                  "decidable hypothesis), answers independent of how a non-contiguous Buf is cut")
     level_note = ("trusted: Lean kernel + 3 standard axioms; hand-written models tied to the code by differential runs (all "
                   "0..2-byte Huffman payloads and byte strings, every padding length/pattern, integer boundaries and "
                   "continuation patterns, error kinds and bit windows compared); Spec/Huffman.lean code lengths typed by "
@@ -65,6 +69,11 @@ class C15(Prop):
             "without bytes behind them - every 2-way split, every 3-way split of the short ones, sampled 3-way splits of the "
             "others, every byte a chunk of its own, random literals with 1..4 random cuts; declared lengths around 2^29 - 2 "
             "with and without H; huff decn = Huffman literals of n copies of a unit (corpus: the 2^29-byte witness of D-06u); "
+            "huff encn = n copies of a unit through the real ENCODER, answered by arithmetic (length, byte sum, tail; the model's "
+            "reservation arithmetic at the puts where the Vec's capacity is used up): counts 0..17 / 100 / 1000 / 4096 / 65537 of 7 "
+            "units, random units and counts, 30 000 000 x 61, corpus: the first count at which the unrepaired encoder's "
+            "`7 * end_range.byte` overflows (D-15e); thorough: the bound of the theorem, the audit's witness, both sides of "
+            "the repaired encoder's refusal at 2^32 bytes; "
             "non-trivial = implementation result is not bad-op; distinct = distinct case lines")
     trusted = ["bytes::{Buf,BufMut} for &[u8] cursors and Vec<u8>; the harness's multi-chunk Buf (e_c16::Chunks: remaining / "
                "chunk / advance over a VecDeque<Bytes>, default copy_to_bytes / get_u8 of the bytes crate)",
@@ -73,6 +82,9 @@ class C15(Prop):
                    "no assumption on the length of a Huffman payload any more: the u32 BitWindow positions are covered by "
                    "C15_huffman_positions_fit and the refusal of literals of 2^29 - 2 bytes or more (D-06u, repaired); the "
                    "round trip is claimed for strings whose Huffman coding is shorter than that (reading R-15b)",
+                   "the Huffman ENCODER's positions: theorems for codings of L bytes with 7L < 2^32 (613 566 757 bytes; "
+                   "reading R-15e); the Vec's growth policy is a parameter of the checked model (theorems: every policy; the "
+                   "driver's prediction of the boundary probes: the standard library's max(8, 2*cap, required))",
                    "overflow checks are on in the harness build: prefix size 0 panics in prefix_int::decode "
                    "(`0xFF >> 8` on u8); sizes 1..8 are the property's quantifier"]
 
@@ -441,6 +453,23 @@ class C15(Prop):
         # the witness of the defect is in corpus/C15 (512 MiB, answered `err BufSize` at once)
         for unit, cnt in (("00", 0), ("00", 1), ("00", 5), ("ff", 3), ("1c", 64), ("a8eb10649cbf", 100), ("00", 65536)):
             L.append("huff decn %s %d" % (unit, cnt))
+        # the Huffman ENCODER's u32 positions (D-15e): `encn` = count copies of a unit through the real encoder; the driver
+        # answers by arithmetic (period of the coded bytes; the model's own reservation arithmetic at the puts where the
+        # capacity is used up).  Small counts at every phase of the period, random units; the boundary: the largest count
+        # under the theorem's bound 7L < 2^32 (0a = 30 bits: 163617801), the counts on both sides of the first
+        # reservation with 7*byte >= 2^32 under the standard library's growth (231939058 ok on both shapes / 231939059:
+        # the old shape panics - corpus/C15/d15e_huge_huffman_coding.txt runs the second on every check); thorough: the
+        # audit's witness 450000000 and both sides of the repaired shape's refusal (a coding of 2^32 - 4 bytes / 4 more)
+        for unit in ("0a", "00", "61", "ff", "a8eb", "0a6100", "7fc3"):
+            for cnt in list(range(0, 18)) + [100, 1000, 4096, 65537]:
+                L.append("huff encn %s %d" % (unit, cnt))
+        for _ in range(300 if tier == "thorough" else 60):
+            unit = hx([rng.randrange(256) for _ in range(rng.randrange(1, 5))])
+            L.append("huff encn %s %d" % (unit, rng.randrange(0, 20000)))
+        L.append("huff encn 61 30000000")
+        if tier == "thorough":
+            L += ["huff encn 0a 163617801", "huff encn 0a 231939058", "huff encn 0a 450000000",
+                  "huff encn 0a 1145324611", "huff encn 0a 1145324612"]
         return L
 
     # ------------------------------------------------------------------ statistics
@@ -453,6 +482,9 @@ class C15(Prop):
             return "huff/range"
         if op == "decn":
             return "huff/decn/" + "-".join(r[:2] if r[0] == "err" else [r[0]])
+        if op == "encn":
+            size = "small" if len(w) > 3 and w[3].isdigit() and int(w[3]) < 10**6 else "huge"
+            return "huff/encn/%s/" % size + "-".join(r[:2] if r[0] == "err" else [r[0]])
         if op == "decm":
             kind = r[0]
             if kind == "err":
@@ -490,7 +522,7 @@ class C15(Prop):
                 mid = (lo + hi) // 2
                 out += ["huff range %d %d" % (lo, mid), "huff range %d %d" % (mid, hi)]
             return out
-        if w[1] == "decn":
+        if w[1] in ("decn", "encn"):
             c = int(w[3])
             return [" ".join(w[:3] + [str(x)]) for x in (c // 2, c - 1) if 0 <= x < c]
         if w[1] == "decm":
